@@ -693,6 +693,11 @@ func (g *G) genesis() *script.Genesis {
 	// such an account (group policy, interchain account, module-derived address) ever sends a message
 	if g.chance(g.w.longPct * 2) {
 		for _, l := range []string{"L1", "L0"}[:1+g.rng.Intn(2)] {
+			if l == "L1" && g.chance(35) {
+				l = "L5" // shares its first 20 bytes with A0; may buy eFUND (whitelisted, raises through its grantee)
+				gs.Ent.WL = append(gs.Ent.WL, l)
+				gs.Grants = append(gs.Grants, [3]string{l, A(g.rng.Intn(g.n)), "ent.raise"})
+			}
 			gs.Long = append(gs.Long, [2]string{l, "1000000000000000nund,1000000000btoken"})
 			ge := A(g.rng.Intn(g.n))
 			for _, k := range []string{"str.create", "str.topup", "str.rate", "str.cancel", "bank.send"} {
